@@ -428,6 +428,30 @@ func jobTriples(c *rt.Ctx, prop string, zip bool) {
 			}
 		}
 	}
+	// points that share y: a key / R and its negation in consecutive calls (anything the library keeps
+	// from one call to the next and keys by y alone confuses them), in every order
+	for _, vs := range vAll {
+		for ai, a := range []*big.Int{a0, big.NewInt(1), a1} {
+			if !c.Take() {
+				continue
+			}
+			na := new(big.Int).Sub(ref.L, a)
+			pairs := []triple{
+				mkTriple(a, 0, 0, big.NewInt(5), 0, 0, msgOf(1, vs), vs),
+				mkTriple(na, 0, 0, big.NewInt(5), 0, 0, msgOf(1, vs), vs),
+				mkTriple(a, 0, 0, badd(ref.L, -5), 0, 0, msgOf(1, vs), vs),
+				mkTriple(na, 4, 0, big.NewInt(5), 4, 0, msgOf(1, vs), vs),
+			}
+			c.Distinct(fmt.Sprintf("negpair %v %d", vs, ai), true)
+			c.Class("negation-pairs")
+			for _, order := range [][]int{{0, 1, 0, 1}, {1, 0, 2, 0}, {0, 3, 1, 2}, {2, 2, 1, 1}} {
+				for _, i := range order {
+					compareTriple(c, prop, pairs[i], vs, zip, "negation-pair", nil)
+				}
+			}
+		}
+	}
+	c.Require("negation-pairs")
 	c.Require("grid-orders-1-1", "grid-orders-8-8", "grid-orders-2-4", "grid-orders-4-8", "grid-orders-8-2")
 	// single-bit perturbations of accepted triples: every bit of key, signature and message
 	nb := 1
